@@ -141,15 +141,31 @@ def run_cfg(ctx, p, cfg):
         r.require(okc and okf, "counter-counts-lead-bytes", fn=cnt, detail="char_starts = buf.iter().filter(|b| is_char_boundary(b)).count(): %s" % show(ce, 5))
 
     with ctx.rule("A1", "character counting", cfg) as r:
+        rule_char_counting(r, p)
+
+    run_cfg_rest(ctx, p, cfg)
+
+
+def rule_char_counting(r, p):
+    if True:
         pred, cnt = helpers(p)
         cf = counter_fields(p)
         n = 0
         for adt, fld in cf.items():
-            ws = p.field_writes(adt, fld)
+            ws = []
+            for (f0, b0, i0, s0) in p.field_writes(adt, fld):
+                # adaptor chains consumed by nth/find/.. are examined as the loops they denote
+                fl = p.fn_loops(f0.path)
+                if getattr(fl, "desugared", None):
+                    if not any(x[0] is fl for x in ws):
+                        ws.extend((fl, b_, i_, s_) for b_, i_, s_ in fl.assigns() if b_ in fl.reachable_blocks()
+                                  and any(isinstance(e_, dict) and e_.get("f") == fld and e_.get("adt") == adt for e_ in s_["lhs"]["p"]))
+                else:
+                    ws.append((f0, b0, i0, s0))
             for (f, b, i, s) in ws:
                 n += 1
                 v = f._rvalue(s["rv"], frozenset(), 40, b)
-                ok, why = counted_in_chars(p, f, v, adt, fld, pred, cnt)
+                ok, why = counted_in_chars(p, f, v, adt, fld, pred, cnt, store=s)
                 r.require(ok, "update:%s.%s/%s" % (adt.rsplit("::", 1)[-1], fld, f.path.rsplit("::", 1)[-1] + ("#%d" % [x[1] for x in ws if x[0] is f].index(b))), fn=f, site=s.get("at"), detail=why,
                           fail_detail="the width counter %s.%s is updated with %s, which is not a count of characters" % (adt.rsplit("::", 1)[-1], fld, show(v, 5)))
         r.floor("counter-updates", n, 4)
@@ -158,6 +174,7 @@ def run_cfg(ctx, p, cfg):
         if len(mw) != 1:
             raise AnchorMissing("MaxWidthWriter::write not found")
         f = mw[0]
+        fl = p.fn_loops(f.path)
         inner = [c for c in f.calls("std::io::Write::write")]
         r.require(len(inner) == 1, "one-inner-write", fn=f, detail="inner write sites: %d" % len(inner))
         if inner:
@@ -181,13 +198,15 @@ def run_cfg(ctx, p, cfg):
                     okc = False
             r.require(okc, "cut-at-a-lead-byte", fn=f, site=inner[0].at, detail="the slice handed on ends at buf.len() or at an index yielded by enumerate().filter(is_char_boundary)")
             # the loop breaks when no character budget is left
-            zero = [SwitchInfo(f, b["id"]) for b in f.blocks if b["term"]["k"] == "switch" and b["id"] in f.reachable_blocks() and f.in_loop(b["id"]) and (cmp_nf(SwitchInfo(f, b["id"]).discr, True) or (None,))[0] == "Eq"]
+            zero = [SwitchInfo(fl, b["id"]) for b in fl.blocks if b["term"]["k"] == "switch" and b["id"] in fl.reachable_blocks() and fl.in_loop(b["id"]) and (cmp_nf(SwitchInfo(fl, b["id"]).discr, True) or (None,))[0] == "Eq"]
             r.require(len(zero) == 1 and ("const", "int", 0) in [deep_strip(x) for x in cmp_nf(zero[0].discr, True)[1:]], "stops-when-budget-exhausted", fn=f, detail="loop exit on remaining == 0")
 
+
+def run_cfg_rest(ctx, p, cfg):
     with ctx.rule("A5", "bytes are swallowed only past the cut", cfg) as r:
         pred, cnt = helpers(p)
         mw = [f for f in p.fns.values() if f.d.get("impl_self_adt") == MAXW and f.path.endswith("::write") and f.d.get("impl_trait") == "std::io::Write"]
-        f = mw[0]
+        f = p.fn_loops(mw[0].path)
         inner = [c for c in f.calls("std::io::Write::write")]
         sinks = []
         for b, e in q.ret_assignments(f):
@@ -216,7 +235,9 @@ def run_cfg(ctx, p, cfg):
                     rg = [x for x in walk(inner[0].arg(1)) if x[0] == "agg" and x[1].endswith("RangeTo")]
                     if rg:
                         cut = deep_strip(dict(rg[0][3])["end"])
-                ok = other is not None and cut is not None and other == cut and any(x[0] == "call" and x[1] == "core::iter::traits::iterator::Iterator::filter" for x in walk(other))
+                scanned = any(x[0] == "call" and x[1] == "core::iter::traits::iterator::Iterator::enumerate" and deep_strip(x[2][0])[0] == "call" and deep_strip(x[2][0])[1].endswith("::iter")
+                              and deep_strip(deep_strip(x[2][0])[2][0]) == ("param", 2) for x in walk(other)) if other is not None else False
+                ok = other is not None and cut is not None and other == cut and scanned
                 why = "sink iff the scanned cut index == 0: %s" % show(other, 5) if ok else "sink guarded by %s" % show(gates[0][1].discr, 5)
             r.require(ok, "sink-only-when-cut-index-is-zero", fn=f, detail=why,
                       fail_detail="MaxWidthWriter::write swallows the buffer under a condition other than `cut index == 0` computed by the lead-byte scan (%s): continuation bytes of a character whose lead byte was already forwarded can be dropped, producing invalid UTF-8" % why)
@@ -321,7 +342,7 @@ def lead_byte_form(e):
     return False, "unrecognised"
 
 
-def counted_in_chars(p, f, v, adt, fld, pred, cnt):
+def counted_in_chars(p, f, v, adt, fld, pred, cnt, store=None):
     """v is the new value of the counter: must be old - char_starts(..) (checked or saturating), or a
     local decremented by 1 inside the lead-byte-filtered loop."""
     v = strip(v)
@@ -353,6 +374,19 @@ def counted_in_chars(p, f, v, adt, fld, pred, cnt):
         if a[0] == "bin" and a[1] == "Sub" and strip(a[3])[0] == "call" and strip(a[3])[1] == cnt.path:
             seen_dec = True
             continue
+        if a == ("const", "int", 0) and store is not None and store["rv"]["k"] == "use":
+            # `remaining = 0` where the local budget was just found to be 0 (the scan stopped because it ran out)
+            zs = [(b_, c_) for b_, c_, e_ in q.guarded_defs(f, store["rv"]["a"]) if deep_strip(e_) == a]
+            def budget_is_zero(conds):
+                for c_ in conds or []:
+                    nf = cmp_nf(c_, True)
+                    if nf and nf[0] == "Eq" and ("const", "int", 0) in (deep_strip(nf[1]), deep_strip(nf[2])):
+                        x = nf[2] if deep_strip(nf[1]) == ("const", "int", 0) else nf[1]
+                        if counted_in_chars(p, f, deep_strip(x), adt, fld, pred, cnt)[0]:
+                            return True
+                return False
+            if zs and all(budget_is_zero(c_) for b_, c_ in zs):
+                continue
         ok = False
     if ok and seen_dec:
         # the unit decrement sits in a loop over filter(is_char_boundary)
@@ -362,6 +396,8 @@ def counted_in_chars(p, f, v, adt, fld, pred, cnt):
                 return False, "unit decrement outside a loop"
             nx = [c for c in f.calls("core::iter::traits::iterator::Iterator::next") if f.dominates(c.block, b) and f.in_loop(c.block)]
             flt = [x for c in nx for x in walk(c.arg(0)) if x[0] == "call" and x[1] == "core::iter::traits::iterator::Iterator::filter"]
+            if not flt and nx and any(deep_strip(c_)[0] == "call" and deep_strip(c_)[1] == pred.path for c_ in (q.path_condition(f, b) or [])):
+                continue        # the filter as an explicit test in the loop: the decrement runs only when the predicate held for this byte
             if not flt:
                 return False, "unit decrement in a loop that is not filtered by the lead-byte predicate"
             clo = [x for x in walk(flt[0][2][1]) if x[0] == "closure"]
